@@ -482,9 +482,9 @@ def run(ctx):
             c = case_from_line(l)
             (seq_cases if c["kind"] == "sa" else par_cases).append(c)
     else:
-        seq_cases = [gen_seq(ctx, k) for k in range(ctx.scale(500, 6000))]
+        seq_cases = [gen_seq(ctx, k) for k in range(ctx.scale(400, 6000))]
         par_cases = []
-        npar = ctx.scale(90, 1000)
+        npar = ctx.scale(70, 1000)
         k = 0
         for P in (1, 2, 3, 4):
             for _ in range(npar):
